@@ -418,11 +418,15 @@ def evaluate(pid, tier, seed, plan, log):
 
     t0 = time.time()
     jobs = plan["jobs"](tier)
+    lite = bool(os.environ.get("PQVERIF_LITE"))
+    if lite:
+        # development mode for mutation campaigns: only the ubcheck workloads, no coverage floors
+        jobs = [j for j in jobs if j.build == "ubcheck" and not j.wrap]
     for fl in sorted(set(j.build for j in jobs)):
         build(fl, log)
     lines, problems = run_jobs(jobs, seed, log)
     post_info = None
-    if "post" in plan:
+    if "post" in plan and not lite:
         extra_viols, post_info, post_problems = plan["post"](lines, tier)
         lines.extend(extra_viols)
         problems.extend(post_problems)
@@ -447,7 +451,7 @@ def evaluate(pid, tier, seed, plan, log):
         new.append((sig, v, path))
     # coverage floors
     agg = plans.aggregate(stats)
-    floor_problems = plan["floors"](agg, tier) if "floors" in plan else []
+    floor_problems = plan["floors"](agg, tier) if ("floors" in plan and not lite) else []
     evals = sum(int(s.get("evals", 0)) for s in stats)
     # distinct: per job the maximum over its shards (shards may overlap), summed over jobs
     per_job = {}
